@@ -37,6 +37,7 @@ PROPS["C15"] = {
     "outside": ["sizes >= 2^40 for the layout arithmetic", "mkfs bitmap contents for sizes not on the enumerated list (layout arithmetic still covers them)"],
     "harnesses": [
         H("super.VerifLayout", q={}, t={}),
+        H("nfs.VerifMkfs", q={"quotients": 4, "dense": 0, "realalloc": 1}, t={"quotients": 8, "dense": 1, "realalloc": 1}, unwind=70000, max_steps=200000000, budget_s=600, budget_s_t=3000),
     ],
 }
 
@@ -100,6 +101,33 @@ PROPS["C18"] = {
         H("kvs.VerifKvsMultiPut", q={"pairs": 2}, t={"pairs": 3}),
         H("kvs.VerifKvsLarge", covers=("ok", "refused"), q={"disksz": 2000}, t={"disksz": 2000}),
     ],
+}
+
+
+def _xdr_types():
+    import os
+    f = os.path.join(os.path.dirname(os.path.abspath(__file__)), "work", "gen", "nfstypes", "h_xdr_gen.go.list")
+    if os.path.exists(f):
+        return [l.strip() for l in open(f) if l.strip()]
+    return []
+
+
+class _XdrHarnesses(list):
+    """the per-type harness list depends on the types currently in /repo/nfstypes (generated file)"""
+    def __iter__(self):
+        base = [H("nfstypes.VerifXdrDispatch", q={}, t={}), H("nfstypes.VerifXdrFhBound", q={}, t={})]
+        gen = [H("nfstypes.VerifXdr_" + n, covers=("end",), q={"xdrdepth": 1, "xdrlens": 2}, t={"xdrdepth": 2, "xdrlens": 4},
+                 budget_s=120, budget_s_t=900) for n in _xdr_types()]
+        return iter(base + gen)
+
+
+PROPS["C16"] = {
+    "level": "model_checking",
+    "genxdr": True,
+    "explanation": "for every nfstypes type with an Xdr method (harness generated from the current source): a symbolic value is encoded by nfstypes and, converted field by field, by go-rpcgen's independent rfc1813 package; byte equality, round trip, cross decoding and truncation rejection are decided by z3; the 28 registrations are executed with a recording handler",
+    "assumptions": ["go-rpcgen's rfc1813 package (generated from the RFC's .x file, a dependency outside /repo) is the reference layout", "the xdr runtime of go-rpcgen is executed for real"],
+    "outside": ["strings/opaques longer than 5 bytes (representative lengths 0,3,4,5; handle bound 63/64/65 separately)", "lists and optional chains deeper than xdrdepth", "rfc1057 record marking"],
+    "harnesses": _XdrHarnesses(),
 }
 
 
